@@ -145,8 +145,55 @@ Definition doc_conn_early : doc := D [
   ".conn a n1";
   ".subckt INV I=n1 O=y";
   ".end" ].
+(* the second .conn names the cable the first one creates for the merged net *)
+Definition doc_conn_capture : doc := D [
+  ".model top";
+  ".inputs a b c";
+  ".outputs y";
+  ".subckt INV I=a O=y";
+  ".conn a b";
+  ".conn a_0_b_0 c";
+  ".end" ].
+(* a hierarchical design: a declared sub-model, a declared black box, buses, unconn, .names, .latch,
+   instance data, and a .conn after the statements that use the nets *)
+Definition doc_hier : doc := D [
+  "# hierarchical example";
+  ".model top";
+  ".inputs a b[0] b[1] clk";
+  ".outputs y q";
+  ".subckt half A=a B=b[1] S=n1 C=n3";
+  ".cname u_half";
+  ".attr src top.v:7";
+  ".param WIDTH 2";
+  ".gate INV I=n1 O=y X[1]=unconn";
+  ".cname u_inv";
+  ".names a b[0] n2";
+  "11 1";
+  ".latch n2 q re clk 0";
+  ".conn n3 n4";
+  ".end";
+  ".model half";
+  ".inputs A B";
+  ".outputs S C";
+  ".names A B S";
+  "10 1";
+  "01 1";
+  ".names A B C";
+  "11 1";
+  ".end";
+  ".model INV";
+  ".inputs I X[0] X[1]";
+  ".outputs O";
+  ".blackbox";
+  ".end" ].
 End C18Docs2.
 Export C18Docs2.
+
+Lemma doc_hier_supported : supported doc_hier = true.
+Proof. vm_compute. reflexivity. Qed.
+
+Lemma doc_hier_reads : is_ok (elab doc_hier) = true.
+Proof. vm_compute. reflexivity. Qed.
 
 
 Lemma roundtrip_refuted : ~ C18_roundtrip_statement.
@@ -190,6 +237,29 @@ Proof.
   match type of Hn with ?P -> _ => assert (HP : P) end.
   { exists ([97%N], 0), ([97%N], 0). vm_compute. split; [left; reflexivity|]. split; [right; right; left; reflexivity|]. left. reflexivity. }
   apply Hn in HP. apply same_wire_b_complete in HP. vm_compute in HP. discriminate.
+Qed.
+
+(* the file joins net a with net b, and a third net called a_0_b_0 with net c; the reader puts the
+   port pins a and c on one wire *)
+Lemma sound_refuted_conn_capture :
+  exists d n, supported d = false /\ elab d = Ok n /\ ~ denote d n.
+Proof.
+  exists doc_conn_capture.
+  remember (elab doc_conn_capture) as r eqn:Er. vm_compute in Er. subst r.
+  eexists. split; [vm_compute; reflexivity|]. split; [reflexivity|].
+  intros [ss [Hg [HF _]]].
+  vm_compute in Hg. inversion Hg; subst ss. clear Hg.
+  destruct (HF nm_top (or_introl eq_refl)) as [[_ _ _ Hn _] _].
+  specialize (Hn eq_refl _ eq_refl (PTop [97%N] 0) (PTop [99%N] 0)).
+  destruct Hn as [Hn _].
+  match type of Hn with ?P -> _ => assert (HP : P) end.
+  { eexists. eexists. split; [right; right; right; right; right; left; reflexivity|].
+    split; [left; reflexivity|]. split; [left; reflexivity|]. right. right. right. left. reflexivity. }
+  apply Hn in HP. destruct HP as [x [y [Hx [Hy Hs]]]]. vm_compute in Hx, Hy.
+  repeat (destruct Hx as [Hx|Hx]; [inversion Hx; subst x|]); try contradiction;
+  repeat (destruct Hy as [Hy|Hy]; [inversion Hy; subst y|]); try contradiction.
+  vm_compute in Hs. destruct Hs as [Hs|[Hs|Hs]]; [discriminate| |];
+    repeat (destruct Hs as [Hs|Hs]; [discriminate|]); contradiction.
 Qed.
 
 (* ---------- write-then-read on the example document (by computation) ---------- *)
